@@ -39,11 +39,13 @@ def heap(objs):
 class G:
     """universe U = [a, b, c]; a->b, b->c (directed), a--c (undirected), self-loop on a, a->x with x outside; laws with a whitelist."""
 
-    def __init__(self, h, caching):
+    def __init__(self, h, caching, unknown_link=False):
         h.reset()
         self.V = V = {n: h.new("Vertex", n, attributes=DictV([["name", n]])) for n in "abcx"}
         self.L = [h.new("DirectedEdge", "e_ab", V["a"], V["b"]), h.new("DirectedEdge", "e_bc", V["b"], V["c"]), h.new("UnDirectedEdge", "e_ac", V["a"], V["c"]),
-                  h.new("DirectedEdge", "e_aa", V["a"], V["a"]), h.new("DirectedEdge", "e_ax", V["a"], V["x"]), h.new("SymTwo", "e_cb", V["c"], V["b"])]
+                  h.new("DirectedEdge", "e_aa", V["a"], V["a"]), h.new("DirectedEdge", "e_ax", V["a"], V["x"])]
+        if unknown_link:
+            self.L.append(h.new("SymTwo", "e_cb", V["c"], V["b"]))
         self.U = h.new("Universe", "U", vertices=Seq([V["a"], V["b"], V["c"]], "list"))
         laws = self.U.fields.get("_laws")
         if isinstance(laws, Obj):
@@ -104,21 +106,42 @@ def plantuml_call(h, fn, g, cb):
 
 GOOD = {
     "filterfunc": lambda I, n, a, k: True, "ff_via": lambda I, n, a, k: True, "ff_result": lambda I, n, a, k: True,
-    "rfunc": lambda I, n, a, k: mkstr([SAtom("R", a[0])]), "sort": lambda I, n, a, k: {"a": 2, "b": 0, "c": 1, "x": 3}[a[0].name],
+    "rfunc": lambda I, n, a, k: mkstr([SAtom("R", a[0])]), "sort": lambda I, n, a, k: {"a": 0, "b": 3, "c": 2, "x": 1}[a[0].name],
     "rvfunc": lambda I, n, a, k: mkstr([SAtom("Label", a[0])]), "refunc": lambda I, n, a, k: mkstr([SAtom("Title", a[0])]),
     "user_render_func": lambda I, n, a, k: mkstr([SAtom("Decl", a[0]), "\n"]),
 }
 
 
-def mkcbs(names, fault=None, B=None):
+def mkcbs(names, fault=None, armed=None):
+    """`armed`: a one-element list; the fault only fires while armed[0] is true, so the *same* callables can be re-used
+    well-behaved for the repeated call."""
     cbs = {n: None for n in GOOD}
     for n in names:
         def script(I, k, a, kw, _n=n):
-            if fault is not None and fault[0] == _n and k == fault[1]:
+            if fault is not None and fault[0] == _n and k == fault[1] and (armed is None or armed[0]):
                 raise Raised(I.w.B.mkexc("RuntimeError", f"injected fault in {_n} call {k}"))
             return GOOD[_n](I, k, a, kw)
         cbs[n] = Callback(n, script)
     return cbs
+
+
+def observe(h, g):
+    """What a user can see of the graph through queries: neighbours of every vertex (two settings) and a traversal.
+    With caching on these go through the memo, so a read-only operation that disturbs cached answers is visible here."""
+    C = c04.consts(h)
+    nb = h.fn(c04.FN)
+    bft = h.fn("edgegraph.traversal.breadthfirst.bft")
+    out = {}
+    for n, v in g.V.items():
+        out["neighbors(" + n + ")"] = outsig(h.call(nb, v))
+        out["neighbors(" + n + ", NEIGHBOR)"] = outsig(h.call(nb, v, C["FORWARD"], C["NEIGHBOR"]))
+        out["neighbors(" + n + ", ANY)"] = outsig(h.call(nb, v, C["ANY"]))
+    out["bft(U, a)"] = outsig(h.call(bft, g.U, g.V["a"], unknown_handling=C["NEIGHBOR"]))
+    return out
+
+
+def obsdiff(a, b):
+    return "; ".join(f"{k}: {a[k]} -> {b[k]}" for k in a if a[k] != b.get(k))[:300]
 
 
 def outsig(o):
@@ -155,12 +178,17 @@ def run(ctx):
                 base = {}
                 for mode in ("none", "good"):
                     g = G(h, caching)
+                    obs0 = observe(h, g)
                     pre = heap(g.objs)
                     cbs = mkcbs(cbnames if mode == "good" else ())
                     out = thunk(g, cbs)
                     post = heap(g.objs)
+                    obs1 = observe(h, g)
                     n += 1
                     ok = post == pre
+                    if ok and obs1 != obs0:
+                        res.ob(False, sig=(name, caching, mode, "obs"))
+                        res.violation("UNCHANGED", qual, f"fault=none,caching={caching},later-queries-differ", f"after {name} (callbacks: {mode}) later queries answer differently: {obsdiff(obs0, obs1)}", replay=replay(name))
                     res.ob(ok, sig=(name, caching, mode), sample={"entry": name, "caching": caching, "callbacks": mode, "outcome": str(outsig(out))[:200]})
                     if not ok:
                         res.violation("UNCHANGED", qual, f"fault=none,caching={caching}", f"{name} (callbacks: {mode}) changes the graph: {diff(pre, post)}", replay=replay(name))
@@ -170,15 +198,24 @@ def run(ctx):
                 for c in cbnames:
                     for k in range(counts.get(c, 0)):
                         g = G(h, caching)
+                        obs0 = observe(h, g)
                         pre = heap(g.objs)
-                        cbs = mkcbs(cbnames, fault=(c, k))
+                        armed = [True]
+                        cbs = mkcbs(cbnames, fault=(c, k), armed=armed)
                         out = thunk(g, cbs)
                         post = heap(g.objs)
-                        out2 = thunk(g, mkcbs(cbnames))
+                        armed[0] = False
+                        for cb in cbs.values():
+                            if cb is not None:
+                                cb.calls = []
+                        out2 = thunk(g, cbs)   # the same callables, now well-behaved
                         post2 = heap(g.objs)
+                        obs1 = observe(h, g)
                         n += 1
                         why = None
-                        if post != pre:
+                        if obs1 != obs0:
+                            why = f"after {c} raised at its call #{k} and {name} was repeated, later queries answer differently: {obsdiff(obs0, obs1)}"
+                        elif post != pre:
                             why = f"after {c} raised at its call #{k} ({name} ended with {outsig(out) if out.kind == 'raise' else 'a normal return'}) the graph differs: {diff(pre, post)}"
                         elif outsig(out2) != base["good"][0] or post2 != pre:
                             why = f"after {c} raised at its call #{k}, repeating {name} with well-behaved callbacks gives {str(outsig(out2))[:160]} instead of the normal answer {str(base['good'][0])[:160]}"
